@@ -28,7 +28,7 @@ PROFILE_Q = gen.Profile("projection", weights=W, max_steps=7, max_rows=8)
 PROFILE_T = gen.Profile("projection", weights=W, max_steps=11, max_rows=14, n_tables=(1, 3))
 
 # operators whose result does not depend on columns they do not mention
-INDEP = {"cols", "col", "drop", "rename", "assign", "astype", "fillna", "binop", "series_red_reuse", "isin", "clip", "to_frame", "filter", "filter_pred", "loc_slice",
+INDEP = {"cols", "col", "drop", "rename", "assign", "astype", "fillna", "binop", "series_red_reuse", "isin", "clip", "to_frame", "filter", "filter_pred", "loc_slice", "loc_list",
          "head", "nlargest", "sort_values", "set_index", "shuffle", "repartition", "partitions", "groupby_agg", "merge", "merge_index", "cum", "value_counts", "unique",
          "accessor", "index_of", "cut", "reset_index", "map_partitions", "where", "binop_scalar", "unary", "reduce", "shift", "dropna", "drop_duplicates"}
 SERIES_ONLY = {"binop_scalar", "unary", "reduce", "shift", "where", "drop_duplicates"}  # column independent only when applied to a Series
